@@ -1,6 +1,7 @@
 (* C05/C16 at the level of the public entry points (Model.DecApi). *)
 From Coq Require Import ZArith List Lia Bool ZifyBool.
 From LZ4V Require Import Gen.Consts Spec.BlockSpec Model.Mem Model.Dec Model.DecApi.
+From LZ4V Require Import Proofs.DecSafe Proofs.DecApiSafe.
 From LZ4V Require Import Proofs.DecRefineBase Proofs.DecRefineSafe Proofs.DecRefineTop.
 Import ListNotations.
 Local Open Scope Z_scope.
@@ -65,6 +66,89 @@ Proof.
   apply (dec_generic_valid_safe_loop NoDict srcm empty 0 0 0 ltac:(lia) ltac:(lia) B [] D cap m0); try assumption.
   - intros j Hj. cbn in Hj. lia.
   - cbn. lia.
+Qed.
+
+(* ================= C16: partial decoding ================= *)
+(* return value min(t,|D|) and that prefix of D at the start of the destination *)
+Definition decodes_prefix (res : Z * mem * bool) (D : list Z) (t : Z) : Prop :=
+  let '(r, m, k) := res in
+  r = Z.min t (Z.of_nat (length D)) /\ forall i, 0 <= i < r -> get m i = nth (Z.to_nat i) D 0.
+
+(* statement at full strength: every placement, fast loop on or off; [k] trailing bytes declared
+   in srcSize (allowed when t <= |D|) *)
+Definition C16_partial_exact_full_statement : Prop :=
+  forall (fastloop : bool) (pl : placement) (B hist D : list Z) (srcm dictm : mem) (t cap k : Z) (m0 : mem),
+    strict_valid (lastn (Z.to_nat 65536) hist) B = Some D -> bytes B -> src_at srcm 0 B ->
+    hist_placed pl hist dictm m0 -> 0 <= t -> Z.min t (Z.of_nat (length D)) <= cap ->
+    0 <= k -> (k = 0 \/ t <= Z.of_nat (length D)) ->
+    decodes_prefix (decompress_usingDict fastloop true srcm (Z.of_nat (length B) + k) t cap pl dictm (Z.of_nat (length hist)) m0) D t.
+
+Lemma partial_oend t cap n : 0 <= t -> 0 <= n -> Z.min t n <= cap -> 
+  0 <= Z.min t cap /\ Z.min (Z.min t cap) n = Z.min t n /\ (t <= n -> Z.min t cap <= n).
+Proof. lia. Qed.
+
+Theorem partial_exact_safe_loop_prefix :
+  forall (B hist D : list Z) (srcm dictm : mem) (t cap k : Z) (m0 : mem),
+    strict_valid (lastn (Z.to_nat 65536) hist) B = Some D -> bytes B -> src_at srcm 0 B ->
+    hist_placed PPrefix hist dictm m0 -> 0 <= t -> Z.min t (Z.of_nat (length D)) <= cap ->
+    0 <= k -> (k = 0 \/ t <= Z.of_nat (length D)) ->
+    decodes_prefix (decompress_usingDict false true srcm (Z.of_nat (length B) + k) t cap PPrefix dictm (Z.of_nat (length hist)) m0) D t.
+Proof.
+  intros B hist D srcm dictm t cap k m0 Hv Hb Hs Hh Ht Hcap Hk Htr.
+  unfold hist_placed in Hh. unfold decompress_usingDict, decodes_prefix.
+  pose proof (out_at_lastn _ _ (Z.to_nat 65536) _ Hh) as Hh'.
+  pose proof (lastn_length (Z.to_nat 65536) hist) as Hl.
+  destruct (partial_oend t cap (Z.of_nat (length D)) Ht ltac:(lia) Hcap) as (Ho0 & Hmin & Hle).
+  rewrite <- Hmin.
+  assert (Htr' : k = 0 \/ Z.min t cap <= Z.of_nat (length D)) by lia.
+  destruct (Z.of_nat (length hist) =? 0) eqn:E0.
+  - apply (dec_generic_partial_safe_loop NoDict srcm empty 0 0 0 ltac:(lia) ltac:(lia) B (lastn (Z.to_nat 65536) hist) D (Z.min t cap) k m0); try assumption. lia.
+  - destruct (Z.of_nat (length hist) >=? 65536 - 1) eqn:E1.
+    + apply (dec_generic_partial_safe_loop WithPrefix64k srcm empty 0 (-65536) (- Z.of_nat (length hist)) ltac:(lia) ltac:(lia) B (lastn (Z.to_nat 65536) hist) D (Z.min t cap) k m0); try assumption. lia.
+    + apply (dec_generic_partial_safe_loop NoDict srcm empty 0 (- Z.of_nat (length hist)) (- Z.of_nat (length hist)) ltac:(lia) ltac:(lia) B (lastn (Z.to_nat 65536) hist) D (Z.min t cap) k m0); try assumption. lia.
+Qed.
+
+Theorem partial_exact_safe_loop_nodict :
+  forall (B D : list Z) (srcm : mem) (t cap k : Z) (m0 : mem),
+    strict_valid [] B = Some D -> bytes B -> src_at srcm 0 B ->
+    0 <= t -> Z.min t (Z.of_nat (length D)) <= cap -> 0 <= k -> (k = 0 \/ t <= Z.of_nat (length D)) ->
+    decodes_prefix (decompress_safe_partial false srcm (Z.of_nat (length B) + k) t cap m0) D t.
+Proof.
+  intros B D srcm t cap k m0 Hv Hb Hs Ht Hcap Hk Htr. unfold decompress_safe_partial, decodes_prefix.
+  destruct (partial_oend t cap (Z.of_nat (length D)) Ht ltac:(lia) Hcap) as (Ho0 & Hmin & Hle).
+  rewrite <- Hmin.
+  apply (dec_generic_partial_safe_loop NoDict srcm empty 0 0 0 ltac:(lia) ltac:(lia) B [] D (Z.min t cap) k m0); try assumption.
+  - intros j Hj. cbn in Hj. lia.
+  - cbn. lia.
+  - lia.
+Qed.
+
+(* the trailing-bytes case on its own: declared srcSize = |B| + k, t <= |D| *)
+Corollary partial_trailing_bytes_safe_loop :
+  forall (B hist D : list Z) (srcm dictm : mem) (t cap k : Z) (m0 : mem),
+    strict_valid (lastn (Z.to_nat 65536) hist) B = Some D -> bytes B -> src_at srcm 0 B ->
+    hist_placed PPrefix hist dictm m0 -> 0 <= t <= Z.of_nat (length D) -> t <= cap -> 0 <= k ->
+    let '(r, m, _) := decompress_usingDict false true srcm (Z.of_nat (length B) + k) t cap PPrefix dictm (Z.of_nat (length hist)) m0 in
+    r = t /\ forall i, 0 <= i < t -> get m i = nth (Z.to_nat i) D 0.
+Proof.
+  intros B hist D srcm dictm t cap k m0 Hv Hb Hs Hh Ht Hcap Hk.
+  pose proof (partial_exact_safe_loop_prefix B hist D srcm dictm t cap k m0 Hv Hb Hs Hh) as H.
+  unfold decodes_prefix in H.
+  destruct (decompress_usingDict false true srcm (Z.of_nat (length B) + k) t cap PPrefix dictm (Z.of_nat (length hist)) m0) as [[r m] kk].
+  destruct H as [H1 H2]; try lia.
+  replace (Z.min t (Z.of_nat (length D))) with t in H1 by lia. subst r. split; [reflexivity | exact H2].
+Qed.
+
+(* usingDict variant of the C02 bound, phrased for the partial entry point *)
+Lemma partial_usingDict_no_write_beyond fastloop srcm srcSize target cap pl dictm dictSize m0 :
+  Proofs.DecSafe.src_bytes srcm -> 0 <= srcSize -> 0 <= dictSize ->
+  let '(r, m, ok) := decompress_usingDict fastloop true srcm srcSize target cap pl dictm dictSize m0 in
+  ok = true /\ (r < 0 \/ (0 <= r <= cap /\ r <= target)).
+Proof.
+  intros H1 H2 H3.
+  pose proof (Proofs.DecApiSafe.decompress_usingDict_ok fastloop true srcm srcSize target cap pl dictm dictSize m0 H1 H2 H3) as H.
+  destruct (decompress_usingDict fastloop true srcm srcSize target cap pl dictm dictSize m0) as [[r m] k].
+  destruct H as [Ha [Hb|[Hb Hc]]]; (split; [exact Ha|]); [left; exact Hb | right; split; [exact Hb | apply Hc; reflexivity]].
 Qed.
 
 (* ---- finding F5: the decoder accepts match offset 0 ---- *)
